@@ -12,9 +12,10 @@ TraceInit ==
     /\ InitWith([p |-> Traces[tid].cfg.p, kind |-> Traces[tid].cfg.kind, w0 |-> Traces[tid].cfg.w0, jit |-> 1])
 IsEvent(a) == l <= Len(Ev) /\ Ev[l].a = a /\ l' = l + 1 /\ UNCHANGED tid
 Bind == Proj' = Ev[l].obs
-(* the draw is logged with every event; where the model takes no draw it is not constrained *)
-Drawn(f) == \/ rnd' = rnd + 1 /\ f = Ev[l].f
-            \/ rnd' = rnd
+(* The draw itself is not bound to the logged random number: which period a given random number maps to
+   (r -> p*(1 + j*(r - 1/2)) or its mirror image) is not part of C39, so TLC infers f from the logged
+   deadline; the logged draw count and deadlines are bound, and every property is evaluated per step. *)
+Drawn(f) == TRUE
 TrStart == IsEvent("start") /\ (\E f \in JF : Start(f) /\ Drawn(f)) /\ Bind
 TrStop  == IsEvent("stop") /\ Stop /\ Bind
 TrDone  == IsEvent("done") /\ (\E f \in JF : Done(f) /\ Drawn(f)) /\ Bind
